@@ -1650,6 +1650,10 @@ def cp(F, G = None, h = None, dims = None, A = None, b = None,
     from cvxopt import base, blas, misc
     from cvxopt.base import matrix, spmatrix 
 
+    if type(kktsolver) is str and kktsolver not in ('ldl', 'chol', 'chol2'):
+        raise ValueError("'%s' is not a valid value for kktsolver" \
+            %kktsolver)
+
     mnl, x0 = F()
 
     # Argument error checking depends on level of customization.
